@@ -371,6 +371,79 @@ fn mutate_struct(r: &mut Rng, text: &str) -> String {
     print_top(&forms)
 }
 
+/// 'template-program' population: small random programs for the template engine. Template bodies
+/// and call arguments are drawn from a pool that contains the expansion keywords themselves, the
+/// template names (also the template's own and later ones), the variables, conditionals and nested
+/// lists - so an expansion can be produced by substitution rather than written literally, which is
+/// what the declaration-order validation of deftemplate does not see.
+fn gen_template_program(r: &mut Rng) -> String {
+    const NAMES: &[&str] = &["ta", "tb", "tc"];
+    fn item(r: &mut Rng, nv: usize, depth: u32) -> String {
+        if depth >= 3 || r.chance(560) {
+            match r.pick_w(&[30, 18, 6, 18, 14, 4, 4, 6]) {
+                0 if nv > 0 => format!("$v{}", r.below(nv as u64)),
+                1 => "t!".into(),
+                2 => "template-expand".into(),
+                3 => (*r.pick(NAMES)).into(),
+                4 => (*r.pick(&["a", "b", "1", "x"])).into(),
+                5 => (*r.pick(&["if-equal", "if-not-equal", "if-in-list", "if-not-in-list"])).into(),
+                6 => "concat".into(),
+                _ => "()".into(),
+            }
+        } else {
+            let n = r.range(0, 4);
+            let v: Vec<String> = (0..n).map(|_| item(r, nv, depth + 1)).collect();
+            format!("({})", v.join(" "))
+        }
+    }
+    let nt = r.range(1, 3) as usize;
+    let mut out = String::from("(defsrc a b)\n");
+    let mut nvs = vec![];
+    for ti in 0..nt {
+        let nv = r.range(0, 2) as usize;
+        nvs.push(nv);
+        let vars: Vec<String> = (0..nv).map(|i| format!("v{i}")).collect();
+        let mut body: Vec<String> = vec![];
+        for _ in 0..r.range(1, 3) {
+            if ti > 0 && r.chance(300) {
+                // a well-formed literal call of an earlier template
+                let tj = r.below(ti as u64) as usize;
+                let args: Vec<String> = (0..nvs[tj]).map(|_| item(r, nv, 2)).collect();
+                body.push(format!("(t! {} {})", NAMES[tj], args.join(" ")));
+            } else {
+                body.push(item(r, nv, 0));
+            }
+        }
+        out.push_str(&format!("(deftemplate {} ({}) {})\n", NAMES[ti], vars.join(" "), body.join(" ")));
+    }
+    let mut calls: Vec<String> = vec![];
+    for _ in 0..r.range(1, 3) {
+        let tj = r.below(nt as u64) as usize;
+        let n = if r.chance(900) { nvs[tj] } else { r.range(0, 3) as usize };
+        let args: Vec<String> = (0..n).map(|_| item(r, 0, 1)).collect();
+        calls.push(format!("({} {} {})", r.pick(&["t!", "template-expand"]), NAMES[tj], args.join(" ")));
+    }
+    match r.below(3) {
+        0 => {
+            out.push_str(&format!("(deflayer base {} b)\n", calls[0]));
+            for c in &calls[1..] {
+                out.push_str(&format!("{c}\n"));
+            }
+        }
+        1 => {
+            out.push_str("(deflayer base @q b)\n");
+            out.push_str(&format!("(defalias q {})\n", calls.join(" q2 ")));
+        }
+        _ => {
+            out.push_str("(deflayer base a b)\n");
+            // the call is the first element of an enclosing list
+            out.push_str(&format!("({})\n", calls.join(" ")));
+            out.push_str(&format!("{}\n", calls[0]));
+        }
+    }
+    out
+}
+
 impl Prop for C03 {
     fn id(&self) -> &'static str {
         "C03"
@@ -379,7 +452,7 @@ impl Prop for C03 {
         "fault_enumeration"
     }
     fn rule_text(&self) -> String {
-        "case = a valid configuration (shipped samples, configs embedded in docs and tests, grammar-generated configs) with one seeded fault on the storage seam: torn prefix, corrupted bytes near delimiters / multi-byte chars, lost/duplicated/reordered lines, unterminated string/comment, include/zippy/chords-v2 file missing / empty / self-including / included twice / not UTF-8 / a directory; plus structure-aware input mutations (delete/duplicate/splice sub-expressions, atom->(), name->unknown, $self-reference, number->boundary) labelled as mutation.* in 'fired'. Both new_from_str (in-memory file provider) and new_from_file (real files in a private tmpfs dir) are exercised. non-trivial = the text differs from its seed config and is non-empty; distinct = distinct (outcome class, hash of error message shape | accepted) x text hash.".into()
+        "case = a valid configuration (shipped samples, configs embedded in docs and tests, grammar-generated configs) with one seeded fault on the storage seam: torn prefix, corrupted bytes near delimiters / multi-byte chars, lost/duplicated/reordered lines, unterminated string/comment, include/zippy/chords-v2 file missing / empty / self-including / included twice / not UTF-8 / a directory; plus structure-aware input mutations (delete/duplicate/splice sub-expressions, atom->(), name->unknown, $self-reference, number->boundary) labelled as mutation.* in 'fired'; plus a 'template-program' population (random deftemplate bodies and call arguments drawn from a pool that contains t!/template-expand, the template names incl. the template's own, variables, conditionals, nested lists - expansions that arise by substitution). Both new_from_str (in-memory file provider) and new_from_file (real files in a private tmpfs dir) are exercised. non-trivial = the text differs from its seed config and is non-empty; distinct = distinct (outcome class, hash of error message shape | accepted) x text hash.".into()
     }
     fn runs(&self, tier: Tier) -> u64 {
         match tier {
@@ -390,6 +463,12 @@ impl Prop for C03 {
     fn gen(&self, seed: u64, _tier: Tier) -> Case {
         let mut r = Rng::new(seed);
         let mut case = Case { prop: "C03".into(), seed, ..Default::default() };
+        if r.chance(40) {
+            case.cfg = gen_template_program(&mut r);
+            case.set("base", "template-program");
+            case.set("fault", "mutation.template_program");
+            return case;
+        }
         // base text
         let (base, files, src) = if r.chance(450) {
             let o = GenOpts { feats: (1u64 << 42) - 1, max_keys: 6, max_layers: 3, max_depth: 3, hostile: true };
